@@ -439,9 +439,18 @@ class JsonProxy(types.ModuleType):
         super().__init__("json_proxy")
         self._real = real
         self.n = 0
+        self.docs = {}
 
     def __getattr__(self, k):
         return getattr(self._real, k)
+
+    def dump(self, o, fp, cls=None, **kw):
+        """file form: a marker text goes into the (real) file or buffer, the structure stays in the proxy's document table"""
+        t = self.dumps(o, cls=cls, **kw)
+        fp.write(str.__str__(t))
+
+    def load(self, fp, **kw):
+        return self.loads(fp.read(), **kw)
 
     def dumps(self, o, cls=None, **kw):
         self.n += 1
@@ -450,12 +459,16 @@ class JsonProxy(types.ModuleType):
         if unknown:
             raise TypeError("json proxy: unmodelled dumps() options %s" % sorted(unknown))
         t.data = json_roundtrip(o, sort_keys=bool(kw.get("sort_keys")))
+        self.docs[self.n] = t.data
         return t
 
     def loads(self, s, **kw):
         if isinstance(s, JsonToken):
             return json_roundtrip(s.data)  # fresh containers on every load
-        return self._real.loads(s, **kw)
+        r = self._real.loads(s, **kw)
+        if isinstance(r, dict) and list(r.keys()) == ["symbolic-json-document"] and r["symbolic-json-document"] in self.docs:
+            return json_roundtrip(self.docs[r["symbolic-json-document"]])  # marker text read back from a file / buffer
+        return r
 
 
 def install_json(cx):
